@@ -23,9 +23,20 @@ package pow
 //@   at Int.Div#1 assert [C16] over_the_expected_span: sel(bigval, $1) == expectedTimeSpan
 //@   at Int.Mul#2 assert [C16] legacy_the_expected_span_scales: sel(bigval, $1) == expectedTimeSpan
 //@   at Int.Div#2 assert [C16] legacy_over_the_clamped_span: sel(bigval, $1) == actualTimeSpan
+// (IsProofed too is used as a function of its arguments below. Proved of its body: the number
+// compared is the block id, the target is decoded from the given bits, and "proofed" means
+// NOT ABOVE the target in both encodings.)
 //@ func PoWConsensus.IsProofed
-//@   noverify
+//@   property C16
 //@   pure
+//@   trustcallees
+//@   at Int.SetBytes assert the_hash_is_the_block_id: recv == hash && $0 == blockID
+//@   at SetCompact assert target_decoded_from_the_given_bits: $0 == targetBits
+//@   at Int.Cmp#2 assert hash_against_the_decoded_target: recv == hash && $0 == d
+//@   at Int.Lsh#1 assert legacy_target_is_two_to_the_256_minus_bits: recv == target && $0 == target && $1 == 256 - targetBits
+//@   at Int.Cmp#3 assert hash_against_the_legacy_target: recv == hash && $0 == target
+//@   ensures compact_target_not_exceeded: pow.bitcoinFlag && result ==> sel(bigval, hash) <= sel(bigval, d) && !fNegative && !fOverflow
+//@   ensures legacy_target_not_exceeded: !pow.bitcoinFlag && result ==> sel(bigval, hash) <= sel(bigval, target)
 
 // A block is accepted only with an id that is the hash of its header and meets
 // the target the chain's own history prescribes, a timestamp not before its
